@@ -11,6 +11,8 @@ package main
 // modes:  disc     cancel channels are only closed by the owner, after the request was made
 //         pre      a cancel channel may already be closed when Request is called (torrent: pe.Done())
 //         during   a second goroutine closes cancel channels while the owner may be inside Request
+//         race     the budget is exhausted, queued requests are cancelled while / just before another holder releases and
+//                  their owner listens on its notify channel (rm_race.go)
 //         wakeup   a scripted scenario measuring the "drawn request does not fit" stall (note, no verdict)
 
 import (
@@ -130,6 +132,10 @@ func rmRun(tr *tracer, idx int, seed int64) {
 	mode := *fMode
 	if mode == "wakeup" {
 		rmWakeup(tr, idx, rng)
+		return
+	}
+	if mode == "race" {
+		rmRace(tr, idx, rng) // rm_race.go: the grant of a queued request races with the close of its cancel channel
 		return
 	}
 	limit := int64(rng.Intn(5)) // 0..4
